@@ -298,7 +298,8 @@ Definition init_base (W : store) (src : source) (nc_arg : option nat) (na_arg : 
                            end
               end
           end
-      | _ => CRaise                                                  (* [] : other[0] raises IndexError *)
+      | Some [] => CSome (alloc k O)                                 (* [] is not taken for a list of structures: no atoms *)
+      | None => CRaise
       end
   | SrcNone => CSome (alloc k na_arg)
   | SrcAtoms a => CSome (alloc k a)
